@@ -444,6 +444,8 @@ def var_facts(cfg, var, consts=None):
             facts.append(([(tn, 'true')], n + 1))
         elif op is ast.Eq:
             facts.append(([(tn, 'true')], n))
+            if n == 0 and var.startswith('len('):
+                facts.append(([(tn, 'false')], 1))      # a length that is not 0 is at least 1
     return facts
 
 
